@@ -73,8 +73,8 @@ mut("c13-automap-forgets-registration", ["C13"], CORE,
     "                        if rewritten.size() <= size_limit {\n                            packet = rewritten;\n                        }",
     note="auto-map sends topic+alias (receiver rebinds) but does not record it: a later publish on the alias's old topic is then sent as empty topic + alias and resolves to the wrong topic (I first took this for a harmless negative control; the check was right)")
 mut("c13-alias-survives-close", ["C13", "C10"], CORE,
-    "        // Clear topic alias management\n        self.topic_alias_send = None;\n        self.topic_alias_recv = None;\n\n        // Drop a partially",
-    "        // Clear topic alias management\n        self.topic_alias_recv = None;\n\n        // Drop a partially",
+    "        // Clear topic alias management\n        self.topic_alias_send = None;\n        self.topic_alias_recv = None;\n\n        // The peer's Receive Maximum",
+    "        // Clear topic alias management\n        self.topic_alias_recv = None;\n\n        // The peer's Receive Maximum",
     note="send-side alias table survives notify_closed (initialize() resets it on the next CONNECT sent/received, but a server's table is only replaced when the new CONNECT carries a Topic Alias Maximum)")
 # ---- C14
 mut("c14-limit-off-by-one", ["C14"], CORE,
@@ -104,8 +104,8 @@ mut("c15-cancel-keeps-recv-flag", ["C15", "C10"], CORE,
     note="cancel_timers leaves pingreq_recv_set true: a second cancel for an unarmed timer follows")
 # ---- C16
 mut("c16-restore-without-register", ["C16", "C08"], CORE,
-    "                GenericStorePacket::V3_1_1Pubrel(p) => {\n                    // Pubrel packets expect PUBCOMP response\n                    self.pid_pubcomp.insert(p.packet_id());\n                    // Register packet ID and add to store\n                    let packet_id = p.packet_id();\n                    if self.pid_man.register_id(packet_id).is_ok() {",
-    "                GenericStorePacket::V3_1_1Pubrel(p) => {\n                    // Pubrel packets expect PUBCOMP response\n                    self.pid_pubcomp.insert(p.packet_id());\n                    // Register packet ID and add to store\n                    let packet_id = p.packet_id();\n                    if !self.pid_man.is_used_id(packet_id) {",
+    "                GenericStorePacket::V3_1_1Pubrel(p) => {\n                    // Register packet ID, then track the expected PUBCOMP and add to store.\n                    // A packet whose ID is already in use is skipped entirely.\n                    let packet_id = p.packet_id();\n                    if self.pid_man.register_id(packet_id).is_ok() {",
+    "                GenericStorePacket::V3_1_1Pubrel(p) => {\n                    // Register packet ID, then track the expected PUBCOMP and add to store.\n                    // A packet whose ID is already in use is skipped entirely.\n                    let packet_id = p.packet_id();\n                    if !self.pid_man.is_used_id(packet_id) {",
     note="restored v3.1.1 PUBREL ids are not registered as in use")
 # ---- C17
 mut("c17-accept-level-3", ["C17", "C05"], CORE,
@@ -138,8 +138,8 @@ mut("c19-pingresp-timeout-no-close-v4", ["C19", "C15"], CORE,
     "            TimerKind::PingrespRecv => {\n                // Reset timer flag\n                self.pingresp_recv_set = false;\n\n                match self.protocol_version {\n                    Version::V3_1_1 => {\n                        // V3.1.1: Close connection\n                    }",
     note="v3.1.1 PINGRESP timeout does not close")
 mut("c19-refusing-connack-close-first", ["C19"], CORE,
-    "        let rc = packet.return_code();\n        events.push(GenericEvent::RequestSendPacket {\n            packet: packet.into(),\n            release_packet_id_if_send_error: None,\n        });\n        if rc != ConnectReturnCode::Accepted {\n            self.status = ConnectionStatus::Disconnected;\n            self.cancel_timers(&mut events);\n            events.push(GenericEvent::RequestClose);\n            return events;\n        }",
-    "        let rc = packet.return_code();\n        if rc != ConnectReturnCode::Accepted {\n            self.status = ConnectionStatus::Disconnected;\n            self.cancel_timers(&mut events);\n            events.push(GenericEvent::RequestClose);\n            events.push(GenericEvent::RequestSendPacket {\n                packet: packet.into(),\n                release_packet_id_if_send_error: None,\n            });\n            return events;\n        }\n        events.push(GenericEvent::RequestSendPacket {\n            packet: packet.into(),\n            release_packet_id_if_send_error: None,\n        });",
+    "        let rc = packet.return_code();\n        let session_present = packet.session_present();\n        events.push(GenericEvent::RequestSendPacket {\n            packet: packet.into(),\n            release_packet_id_if_send_error: None,\n        });\n        if rc != ConnectReturnCode::Accepted {\n            self.status = ConnectionStatus::Disconnected;\n            self.cancel_timers(&mut events);\n            events.push(GenericEvent::RequestClose);\n            return events;\n        }",
+    "        let rc = packet.return_code();\n        let session_present = packet.session_present();\n        if rc != ConnectReturnCode::Accepted {\n            self.status = ConnectionStatus::Disconnected;\n            self.cancel_timers(&mut events);\n            events.push(GenericEvent::RequestClose);\n            events.push(GenericEvent::RequestSendPacket {\n                packet: packet.into(),\n                release_packet_id_if_send_error: None,\n            });\n            return events;\n        }\n        events.push(GenericEvent::RequestSendPacket {\n            packet: packet.into(),\n            release_packet_id_if_send_error: None,\n        });",
     note="v3.1.1 refusing CONNACK after the close request")
 # ---- C20
 mut("c20-allocate-largest", ["C20", "C08"], "src/mqtt/common/value_allocator.rs",
@@ -212,7 +212,7 @@ MC = f"{ROOT}/mc"
 VROOT = f"{ROOT}/vroot"
 
 def sh(cmd, cwd=None, timeout=3600):
-    return subprocess.run(cmd, shell=True, cwd=cwd, capture_output=True, text=True, timeout=timeout)
+    return subprocess.run(cmd, shell=True, cwd=cwd, capture_output=True, text=True, errors='replace', timeout=timeout)
 
 def setup():
     if not os.path.exists(REPO):
